@@ -12,6 +12,7 @@ import (
 	"sort"
 	"strconv"
 	"sync"
+	"strings"
 	"sync/atomic"
 	"time"
 
@@ -103,6 +104,11 @@ type Server struct {
 	// Unversioned: lists carry no collection resourceVersion (legal; client-go's
 	// fake clientsets do this), and a watch from "" starts at the present
 	Unversioned bool
+	// OpaqueVersions: the collection resourceVersion of a list is an opaque
+	// token ("rv-<n>": what the API conventions say it is), which Watch accepts
+	// back; object versions stay numeric.  Every second server New() makes has
+	// it on, so that every scenario of every property runs under both forms.
+	OpaqueVersions bool
 	// listGate: while non-nil, List calls wait on it before they take their
 	// snapshot (HoldLists / the returned release function)
 	listGate chan struct{}
@@ -124,8 +130,10 @@ type Server struct {
 	nwatch  int
 }
 
+var servers atomic.Int64
+
 func New() *Server {
-	return &Server{objects: map[[2]int]*kobj.Obj{}, nextID: 1}
+	return &Server{objects: map[[2]int]*kobj.Obj{}, nextID: 1, OpaqueVersions: servers.Add(1)%2 == 0}
 }
 
 // StartVersion makes the next change carry resource version v (0 is a legal
@@ -443,6 +451,9 @@ func (s *Server) list(ctx context.Context, _ metav1.ListOptions) (runtime.Object
 	if s.Unversioned {
 		return TypedList(s.Kind, "", objs), nil
 	}
+	if s.OpaqueVersions {
+		return TypedList(s.Kind, "rv-"+strconv.Itoa(v), objs), nil
+	}
 	return TypedList(s.Kind, strconv.Itoa(v), objs), nil
 }
 
@@ -627,6 +638,8 @@ func (s *Server) Watch(ctx context.Context, opts metav1.ListOptions) (w watch.In
 }
 
 func (s *Server) watchConnect(ctx context.Context, opts metav1.ListOptions) (watch.Interface, error) {
+	// the opaque token of a list, given back
+	opts.ResourceVersion = strings.TrimPrefix(opts.ResourceVersion, "rv-")
 	if s.BeforeWatch != nil {
 		s.BeforeWatch(opts.ResourceVersion)
 	}
